@@ -212,8 +212,60 @@ Section RangeProofs.
     - intros (x & Hx & <- & Hpos). rewrite name_count_in; assumption.
   Qed.
 
+  (* Total is always the sum of the per-name counts *)
+  Definition bal (s : rfb) : Z := rb_total s - csum (rb_counts s).
+
+  Lemma fold_bal {X} (step : rfb -> X -> rfb) l :
+    (forall s x, bal (step s x) = bal s) -> forall s, bal (fold_left step l s) = bal s.
+  Proof.
+    intros Hstep. induction l as [|x l IH]; intros s; cbn [fold_left]; [reflexivity|].
+    rewrite IH. apply Hstep.
+  Qed.
+
+  Lemma hit_bal v s r : bal (hit v s r) = bal s.
+  Proof.
+    unfold hit, rfb_hit, bal, csum. destruct (inr r v); [|reflexivity].
+    cbn [rb_counts rb_total]. rewrite csum_bump. lia.
+  Qed.
+
+  Lemma update_bal ranges s t : bal (update ranges s t) = bal s.
+  Proof.
+    unfold update, rfb_update. destruct (value_of t) as [v|]; [|reflexivity].
+    fold hit. rewrite (fold_bal (hit v) ranges (hit_bal v)). reflexivity.
+  Qed.
+
+  Lemma rdoc_bal ranges s d : bal (rdoc ranges s d) = bal s.
+  Proof.
+    unfold rdoc, rfb_doc. fold update.
+    transitivity (bal (fold_left (update ranges) d (rfb_start s))).
+    - unfold rfb_end. destruct (rb_saw _); reflexivity.
+    - rewrite (fold_bal (update ranges) d (update_bal ranges)). reflexivity.
+  Qed.
+
+  Lemma rrun_bal ranges ms :
+    rb_total (rfb_run rname value_of inr ranges ms) = csum (rb_counts (rfb_run rname value_of inr ranges ms)).
+  Proof.
+    unfold rfb_run. fold rdoc.
+    pose proof (fold_bal (rdoc ranges) ms (rdoc_bal ranges) rfb_init) as Hb.
+    unfold bal in Hb. cbn [rfb_init rb_total rb_counts] in Hb. unfold csum in Hb at 2. cbn [map zsum] in Hb. lia.
+  Qed.
+
   Definition nonempty_ranges (ranges : list R) (ms : list (list T)) : list R :=
     filter (fun x => 0 <? rcount x ms) ranges.
+
+  Lemma nonempty_names_iff ranges ms k :
+    NoDup (map rname ranges) ->
+    (In k (map rname (nonempty_ranges ranges ms)) <-> 0 < name_count ranges k ms).
+  Proof.
+    intros Hnd. rewrite (name_count_pos _ _ _ Hnd), in_map_iff. unfold nonempty_ranges. split.
+    - intros (x & E & Hx). apply filter_In in Hx as [Hx Hp]. apply Z.ltb_lt in Hp. exists x. auto.
+    - intros (x & Hx & E & Hp). exists x. split; [exact E|]. apply filter_In. split; [exact Hx|].
+      apply Z.ltb_lt. exact Hp.
+  Qed.
+
+  (* values in non-empty ranges that are not listed *)
+  Definition unlisted_ranges (ranges : list R) (ms : list (list T)) (listed : list entry) : Z :=
+    zsum (map (fun x => if listed_b listed (rname x) then 0 else rcount x ms) (nonempty_ranges ranges ms)).
 
   Lemma range_facet_defined ranges size ms :
     0 <= size -> exists r, range_facet rname value_of inr ranges size ms = Some r.
@@ -234,12 +286,13 @@ Section RangeProofs.
     (* Total, Other, Missing *)
     fr_total r = range_total value_of inr ranges ms /\
     fr_other r + zsum (map snd (fr_entries r)) = fr_total r /\
+    fr_other r = unlisted_ranges ranges ms (fr_entries r) /\
     fr_missing r = range_missing ms.
   Proof.
     intros Hnd Hr. unfold range_facet, rfb_result in Hr.
     destruct (rrun_spec ranges ms) as (Hwf & Hget & Htot & Hmis). cbn zeta in *.
     destruct (finish_spec _ _ _ _ _ (fun k => name_count ranges k ms) Hwf Hget Hr)
-      as (H1 & H2 & H3 & H4 & H5 & H6 & H7 & _).
+      as (H1 & H2 & H3 & H4 & H5 & H6 & H7 & H8).
     fold rcount.
     split.
     { intros k c Hin. destruct (H1 k c Hin) as [-> Hpos].
@@ -250,15 +303,24 @@ Section RangeProofs.
       transitivity (length (keys (rb_counts (rfb_run rname value_of inr ranges ms)))); [symmetry; apply map_length|].
       transitivity (length (map rname (nonempty_ranges ranges ms))); [|apply map_length].
       apply Permutation_length. apply NoDup_Permutation; [apply Hwf|apply NoDup_map_filter, Hnd|].
-      intros k. rewrite (wf_key_iff _ _ Hwf), Hget, (name_count_pos _ _ _ Hnd), in_map_iff.
-      unfold nonempty_ranges. split.
-      - intros (x & Hx & E & Hp). exists x. split; [exact E|]. apply filter_In. split; [exact Hx|].
-        apply Z.ltb_lt. exact Hp.
-      - intros (x & E & Hx). apply filter_In in Hx as [Hx Hp]. apply Z.ltb_lt in Hp. exists x. auto. }
+      intros k. rewrite (wf_key_iff _ _ Hwf), Hget. symmetry. apply nonempty_names_iff, Hnd. }
     split.
     { intros x Hx Hp Hnin e He. specialize (H4 (rname x)). cbn beta in H4.
       rewrite name_count_in in H4 by assumption. apply H4; assumption. }
-    split; [congruence|]. split; [exact H7|congruence].
+    split; [congruence|]. split; [exact H7|]. split; [|congruence].
+    assert (Hent : fr_entries r = firstn (Z.to_nat size) (sort_entries (rb_counts (rfb_run rname value_of inr ranges ms)))).
+    { apply finish_some in Hr. apply Hr. }
+    rewrite H8, (rrun_bal ranges ms). unfold csum.
+    rewrite (skipn_sum_unlisted _ (fun k => name_count ranges k ms) _ (map rname (nonempty_ranges ranges ms)) Hwf Hget);
+      [|apply NoDup_map_filter, Hnd|intros k; apply nonempty_names_iff, Hnd].
+    unfold unlisted_ranges. rewrite Hent, map_map.
+    assert (E : forall l, (forall x, In x l -> In x ranges) ->
+       zsum (map (fun x => if listed_b (firstn (Z.to_nat size) (sort_entries (rb_counts (rfb_run rname value_of inr ranges ms)))) (rname x)
+                           then 0 else name_count ranges (rname x) ms) l) =
+       zsum (map (fun x => if listed_b (firstn (Z.to_nat size) (sort_entries (rb_counts (rfb_run rname value_of inr ranges ms)))) (rname x)
+                           then 0 else rcount x ms) l)).
+    { intros l Hl. apply zsum_map_ext. intros x Hx. rewrite name_count_in by auto. reflexivity. }
+    rewrite E; [lia|]. intros x Hx. unfold nonempty_ranges in Hx. apply filter_In in Hx. apply Hx.
   Qed.
 
   (* ---------- permutation invariance ---------- *)
